@@ -921,6 +921,7 @@ func (p *Program) VerifyFunc(key string) (res *FuncResult) {
 			st.assume(f)
 		}
 		st.assume(g)
+		c.learnRanges(g)
 	}
 	c.entry = st.clone()
 	// vacuity: the preconditions must be satisfiable
